@@ -153,9 +153,11 @@ fn honest(rng: &mut Rng, size: usize, label: &str) -> Script {
   }
   // a peer that speaks only when spoken to: it sends its extended handshake after it has seen the client's
   let reactive = rng.chance(1, 4);
+  // (one honest peer in six is chatty: dozens of ordinary messages over the connection)
+  let chatty = with_noise && rng.chance(1, 6);
   let mut push_noise = |inc: &mut Vec<u8>, rng: &mut Rng| {
     if with_noise {
-      for _ in 0..rng.below(3) {
+      for _ in 0..(if chatty { rng.range(8, 25) } else { rng.below(3) }) {
         inc.extend_from_slice(&noise(rng));
       }
     }
@@ -238,6 +240,9 @@ fn adversarial(base: &[u8], seq: &[&str], hs_kind: &str) -> Script {
         k += 1;
       }
       "wrong-index" => inc.extend_from_slice(&data_msg(k as i128 + 1, size, chunk)),
+      // an index so large that index times piece size does not fit 64 bits (2^50 * 16384 = 2^64; and beyond)
+      "huge-index" => inc.extend_from_slice(&data_msg(1i128 << 50, size, chunk)),
+      "huger-index" => inc.extend_from_slice(&data_msg((1i128 << 63) - 1, size, chunk)),
       "oversize" => inc.extend_from_slice(&data_msg(k as i128, size, &vec![7u8; PIECE + 1])),
       "empty-piece" => inc.extend_from_slice(&data_msg(k as i128, size, &[])),
       "flip" => {
@@ -455,6 +460,9 @@ pub fn run(ctx: &Ctx) -> Report {
           }
         }
       }
+      for seq in [vec!["huge-index"], vec!["huge-index", "ok", "ok"], vec!["ok", "huge-index"], vec!["huger-index"], vec!["ok", "huger-index", "ok"]] {
+        v.push(adversarial(&base, &seq, "ok"));
+      }
       // keep-alives without end: nothing but zero bytes after the handshake, then the peer hangs up
       {
         let t = [0x5au8; 20];
@@ -552,7 +560,7 @@ pub fn run(ctx: &Ctx) -> Report {
         inc.extend(std::iter::repeat(0u8).take(4 * 40_000));
         return PeerRun::start(inc, vec![]);
       }
-      let mut s = adversarial(&served, &["flip", "ok", "ok"], "ok");
+      let mut s = adversarial(&served, if rng.chance(1, 3) { &["huge-index", "ok", "ok"] } else { &["flip", "ok", "ok"] }, "ok");
       s.cuts = vec![rng.below(50) as usize];
       PeerRun::start(s.incoming, s.cuts)
     };
